@@ -2,6 +2,7 @@
 from vlib.vc import contracts_bdd as CB
 from vlib.vc import contracts_autoref as CA_  # noqa: F401 (registers contracts)
 from vlib.vc import contracts_parser as CP_
+from vlib.vc import contracts_reorder as CR_  # noqa: F401 (observed contracts, cross-checked only)
 from vlib.vc.contracts_bdd import REG, SPELLINGS  # noqa
 
 _installed = False
